@@ -78,10 +78,16 @@ contract('biogeme.expressions.base_expressions.Expression.contains_catalog', 'C1
 
 # validate_and_convert(e): for an Expression argument the code returns the argument itself (the two numeric branches
 # need isinstance against builtin number classes on an untyped value).  ASSUMED for Expression arguments.
-contract('biogeme.expressions.convert.validate_and_convert', 'C16', verify=False, pure=True,
-         types={'expression': 'biogeme.expressions.base_expressions.Expression'},
-         returns='biogeme.expressions.base_expressions.Expression',
-         ensures={'identity_on_expressions': 'result is expression'})
+# (contracts/c05c_nodes.py holds a C05 contract of the same function, with the same clause `identity_on_expressions`,
+#  stated with C05 spec functions; one qualified name can carry one contract per process, so it is kept when present)
+from pyvc.contract import REGISTRY as _REG     # noqa: E402
+
+_VAC = 'biogeme.expressions.convert.validate_and_convert'
+if _REG.get(_VAC) is None:
+    contract(_VAC, 'C16', verify=False, pure=True,
+             types={'expression': 'biogeme.expressions.base_expressions.Expression'},
+             returns='biogeme.expressions.base_expressions.Expression',
+             ensures={'identity_on_expressions': 'result is expression'})
 
 field_type('Expression', 'children', 'list[biogeme.expressions.base_expressions.Expression]')
 field_type('NamedExpression', 'name', 'str')
